@@ -498,6 +498,7 @@ def rule_str2array(ctx):
         ctx.unknown("C19.6", f2, where, "str2array: 0/1 text dispatch on dtype", f"parser not identified for dtype {undec}")
     else:
         ctx.holds("C19.6", f2, where, "str2array: 0/1 text dispatch on dtype", "int/float/complex -> token-wise, bool/None -> digit-by-digit")
+    digitwise_validation(ctx, "C19.6")
     # an explicit dtype is applied to the parsed array last; none leaves the parsed array as it is
     ok = True
     why = ""
@@ -515,7 +516,65 @@ def rule_str2array(ctx):
     ctx.check("C19.6", ok, f2, last, "str2array: explicit dtype applied last", "result = parsed.astype(dtype) for every class of text", "explicit dtype is not applied to the parsed array at the end " + why)
 
 
+def rule_pure(ctx):
+    """the conversions return new values: none of them writes into its argument (an in-place shift of the caller's array makes
+    `dbm(idbm(y))` differ from `y` although the returned numbers are right)"""
+    from ..effects import Effects
+    eff = Effects(ctx.pkg)
+    for name in ("db", "dbm", "idb", "idbm", "Q", "gaus", "rcos", "dec2bin", "str2array", "si"):
+        fi = ctx.pkg.func(f"utils.{name}")
+        sm = eff.sum[fi.qualname]
+        bad = {k: n for k, n in sm.mutates.items() if k[0] in fi.params}
+        if bad:
+            k, n = next(iter(bad.items()))
+            ctx.violation("C19.7", fi, n, f"{name}: writes into its argument `{k[0]}{k[1]}`", f"`{src_of(n)[:120]}` modifies the caller's array in place: the value handed in is no longer the value the "
+                          "identities (round trips, dbm = db + 30) are stated for, and a second call gives a different result")
+        else:
+            ctx.holds("C19.7", fi, fi.node, f"{name}: argument left unchanged", "no in-place write to a parameter (effect summary)")
+
+
+def digitwise_validation(ctx, rule):
+    """The recogniser admits every whitespace character (\\s) in 0/1 text but the parser removes only ' ' and ','; what is left
+    besides the digits (tab, newline, ...) has to be *rejected* by the element conversion.  Converting the characters as strings
+    (np.array(list(text)).astype(T), int(c)) parses each one and raises ValueError on a non-digit; arithmetic on code points
+    (frombuffer/encode/ord/view) maps any byte to a number and accepts it silently."""
+    from ..absint import ClassRef
+    pkg = ctx.pkg
+    f2 = pkg.func("utils.str2array")
+    infer = mk_fn("_get_type_array_from_str", [S(f2.params[0])])
+    it = Interp(pkg, param_values={f2.params[1]: Const(None)}, valuation=[(infer, ClassRef("bool"))], no_inline=("_get_type_array_from_str",))
+    it.keep_astype = True
+    rets = [o for o in it.run(f2) if o.kind == "return"]
+    if len(rets) != 1 or not isinstance(rets[0].value, Form):
+        ctx.unknown(rule, f2, f2.node, "str2array: digit-by-digit conversion of 0/1 text", f"{len(rets)} return paths")
+        return
+    v = rets[0].value
+    a = v.single_atom()
+    alts = list(a[2]) if a and a[0] == "phi" else [v]
+    CODEPOINT_FN = {"frombuffer", "fromstring", "ord", "numpy.frombuffer", "numpy.fromstring"}
+    bad, good = [], 0
+    for alt in alts:
+        ats = alt.atoms() if isinstance(alt, Form) else []
+        cp = [x for x in ats if (x[0] == "fn" and x[1] in CODEPOINT_FN) or (x[0] == "meth" and x[2] in ("encode", "view", "tobytes"))]
+        parses = [x for x in ats if x[0] == "fn" and x[1] in ("list", "int") ]
+        conv = [x for x in ats if x[0] == "fn" and x[1] in ("astype", "int", "array")]
+        if cp:
+            bad.append(cp[0])
+        elif parses and conv:
+            good += 1
+    if bad:
+        what = bad[0][1] if bad[0][0] == "fn" else bad[0][2]
+        ctx.violation(rule, f2, rets[0].node, f"str2array: digit-by-digit conversion uses `{what}`",
+                      "the characters of 0/1 text are turned into numbers by arithmetic on their code points: a tab or newline (admitted by the \\s of the recogniser, "
+                      "not removed with the spaces and commas) becomes a non-zero value instead of raising ValueError, so text with other characters is accepted as bits")
+    elif good == len(alts):
+        ctx.holds(rule, f2, rets[0].node, "str2array: digit-by-digit conversion parses each character", "string elements converted by astype/int: a non-digit raises ValueError")
+    else:
+        ctx.unknown(rule, f2, rets[0].node, "str2array: digit-by-digit conversion of 0/1 text", "conversion idiom not recognised as parsing (astype/int of string elements) nor as code-point arithmetic")
+
+
 def run(ctx):
+    rule_pure(ctx)
     rule_si(ctx)
     rule_db(ctx)
     rule_q_gaus(ctx)
@@ -527,3 +586,4 @@ def run(ctx):
     ctx.require_min("C19.3", 2)
     ctx.require_min("C19.5", 2)
     ctx.require_min("C19.6", 9)
+    ctx.require_min("C19.7", 10)
